@@ -545,21 +545,49 @@ func joinPlayer(r *rig.Rig, w *world, name string, ver, cthr, bthr1 int, extra t
 	if err != nil {
 		return nil, "dial: " + err.Error()
 	}
+	// whatever goes wrong below: a backend connection that completed its side must be let go
+	release := func() {
+		go func() {
+			select {
+			case ho := <-ch:
+				close(ho.done)
+			case <-time.After(90 * time.Second):
+			}
+		}()
+	}
 	c.Timeout = 30 * time.Second
+	deaf := ""
+	wait := 30 * time.Second
 	if err := c.JoinFullyAny("localhost", name); err != nil {
-		c.Close()
-		return nil, "join: " + err.Error()
+		if ne, ok := err.(interface{ Timeout() bool }); ok && ne.Timeout() {
+			c.Close()
+			release()
+			return nil, "join: " + err.Error()
+		}
+		// The client cannot decode what the proxy sends it with the threshold the proxy itself
+		// announced. If proxy and backend nevertheless have the player in play (checked below),
+		// the run goes on: the client keeps reading with that threshold, and what it cannot read
+		// is not delivered.
+		deaf = err.Error()
+		wait = 10 * time.Second
 	}
 	var ho *handoff
 	select {
 	case ho = <-ch:
-	case <-time.After(30 * time.Second):
+	case <-time.After(wait):
 		c.Close()
+		release()
+		if deaf != "" {
+			return nil, "join: " + deaf
+		}
 		return nil, "backend never completed the join"
 	}
-	if !rig.WaitFor(30*time.Second, func() bool {
+	if deaf != "" {
+		wait = 10 * time.Second
+	}
+	if !rig.WaitFor(wait, func() bool {
 		p := r.P.PlayerByName(name)
-		return p != nil && p.CurrentServer() != nil
+		return p != nil && p.Active() && p.CurrentServer() != nil
 	}) {
 		// not a verdict on relaying: say what the rig saw and move on
 		p := r.P.PlayerByName(name)
@@ -579,6 +607,9 @@ func joinPlayer(r *rig.Rig, w *world, name string, ver, cthr, bthr1 int, extra t
 		frC: rig.NewFrameReader(c.Conn), frB: rig.NewFrameReader(ho.bc.Conn),
 		sb: dirInfoFor(gproto.ServerBound, ver), cb: dirInfoFor(gproto.ClientBound, ver)}
 	rec := tracefmt.Rec{"ev": "reset", "ver": ver, "cthr": cthr, "bthr": bthr1 - 1, "name": name}
+	if deaf != "" {
+		rec["client_could_not_decode_join"] = deaf
+	}
 	for k, v := range extra {
 		rec[k] = v
 	}
